@@ -216,9 +216,39 @@ func (r *run) buildRaw(n *Node, st *Step) (call func(ctx context.Context) error,
 		}
 		// the violating operation sits in one branch only (two copies of a 2 MiB value would exceed the
 		// transport's own 4 MiB message limit, which is not the limit under test)
-		req := &regattapb.TxnRequest{Table: table, Success: []*regattapb.RequestOp{op}}
+		// ... and among well-formed neighbours of every kind, before and after it, in its own branch and in
+		// the other one: a request is refused as a whole, wherever its invalid part sits
+		h := core.Mix(uint64(st.K), 0x6e6269)
+		neighbour := func(i uint64) *regattapb.RequestOp {
+			k := []byte(fmt.Sprintf("nb-%d", i%5))
+			switch core.Mix(h, i) % 4 {
+			case 0:
+				return &regattapb.RequestOp{Request: &regattapb.RequestOp_RequestPut{RequestPut: &regattapb.RequestOp_Put{Key: k, Value: []byte("n")}}}
+			case 1:
+				return &regattapb.RequestOp{Request: &regattapb.RequestOp_RequestDeleteRange{RequestDeleteRange: &regattapb.RequestOp_DeleteRange{Key: k}}}
+			case 2:
+				return &regattapb.RequestOp{Request: &regattapb.RequestOp_RequestDeleteRange{RequestDeleteRange: &regattapb.RequestOp_DeleteRange{Key: k, RangeEnd: []byte("nb-9")}}}
+			default:
+				return &regattapb.RequestOp{Request: &regattapb.RequestOp_RequestRange{RequestRange: &regattapb.RequestOp_Range{Key: k}}}
+			}
+		}
+		var branch, other []*regattapb.RequestOp
+		for i := uint64(0); i < h%4; i++ {
+			branch = append(branch, neighbour(i))
+		}
+		branch = append(branch, op)
+		for i := uint64(0); i < (h>>8)%3; i++ {
+			branch = append(branch, neighbour(10+i))
+		}
+		for i := uint64(0); i < (h>>16)%3; i++ {
+			other = append(other, neighbour(20+i))
+		}
+		req := &regattapb.TxnRequest{Table: table, Success: branch, Failure: other}
 		if st.K%2 == 1 {
-			req = &regattapb.TxnRequest{Table: table, Compare: []*regattapb.Compare{{Key: []byte("never-there"), Result: regattapb.Compare_EQUAL, TargetUnion: &regattapb.Compare_Value{Value: []byte("x")}}}, Failure: []*regattapb.RequestOp{op}}
+			req = &regattapb.TxnRequest{Table: table, Compare: []*regattapb.Compare{{Key: []byte("never-there"), Result: regattapb.Compare_EQUAL, TargetUnion: &regattapb.Compare_Value{Value: []byte("x")}}}, Failure: branch, Success: other}
+		}
+		if len(branch) > 1 || len(other) > 0 {
+			r.out.Probe("raw-nested-among-valid-neighbours")
 		}
 		desc = "Txn with nested " + desc
 		if allowed != nil && (v == "missing-key") {
